@@ -1,0 +1,35 @@
+//go:build verif
+
+package replicator
+
+// VerifStats is a snapshot of the replicator's bookkeeping, exposed to the
+// verification harness so that quiescence is decided from state.
+type VerifStats struct {
+	Added, Fetching, Fetched int
+	Queue, Buffer            int
+	InProgress               int64
+}
+
+// VerifStats returns the current task/queue/buffer counts.
+func (r *replicator) VerifStats() VerifStats {
+	r.muProcess.RLock()
+	defer r.muProcess.RUnlock()
+
+	s := VerifStats{Queue: r.queue.Len(), InProgress: r.taskInProgress}
+	for _, k := range r.tasks {
+		switch k {
+		case stateAdded:
+			s.Added++
+		case stateFetching:
+			s.Fetching++
+		case stateFetched:
+			s.Fetched++
+		}
+	}
+
+	r.muBuffer.Lock()
+	s.Buffer = len(r.buffer)
+	r.muBuffer.Unlock()
+
+	return s
+}
